@@ -5,13 +5,15 @@ fn toks(m: &DecodedMap) -> Vec<(u32, u32)> { match m { DecodedMap::Regular(sm) =
 
 /// C12: reader path == slice path == reference header rule, for every chunking
 pub fn header() -> Report {
-    let bound = "every header over {) ] ' x CR LF} of length <= 5 in front of a fixed valid map (and alone), x every chunking with <= 2 cut points in the first header+3 bytes plus 1-byte reads";
+    let maxlen = if crate::deep() { 6 } else { 5 };
+    let bound_s = format!("every header over {{) ] ' x CR LF}} of length <= {maxlen} in front of a fixed valid map (and alone), x every chunking with <= 2 cut points in the first header+3 bytes plus 1-byte reads");
+    let bound = bound_s.as_str();
     let body: &[u8] = br#"{"version":3,"sources":["a"],"names":[],"mappings":"AAAA,CAAC"}"#;
     let alpha: &[u8] = b")]'x\r\n";
     let mut cases = 0u64;
     let mut hdrs: Vec<Vec<u8>> = vec![vec![]];
     let mut layer: Vec<Vec<u8>> = vec![vec![]];
-    for _ in 0..5 { let mut next = vec![]; for h in &layer { for &a in alpha { let mut t = h.clone(); t.push(a); next.push(t); } } hdrs.extend(next.iter().cloned()); layer = next; }
+    for _ in 0..maxlen { let mut next = vec![]; for h in &layer { for &a in alpha { let mut t = h.clone(); t.push(a); next.push(t); } } hdrs.extend(next.iter().cloned()); layer = next; }
     for h in &hdrs { for with_body in [true, false] {
         let mut data = h.clone();
         if with_body { data.extend_from_slice(body); }
